@@ -102,3 +102,40 @@ def _order(spec, model):
         except Exception as exc:
             bad.append({'temperatures': list(Ts), 'error': f"{type(exc).__name__}: {exc}"[:120]})
     return {'confirmed': bool(bad), 'observed': bad[:3], 'expected': '20 kJ/mol for every order'}
+
+
+def point_isotherm_cases():
+    """densely sampled *point* isotherms generated from a Langmuir model whose affinity follows van 't Hoff with enthalpy dH, measured
+    up and back down along the same curve (both branches), temperatures in no particular order: the isosteric enthalpy is dH at
+    every loading (to interpolation accuracy), on the adsorption and on the desorption branch"""
+    import pygaps
+    import pygaps.characterisation as pgc
+    pygaps.logger.disabled = True
+    dH = 30000.0
+    for label, Ts in (('3_temperatures', (320.0, 280.0, 300.0)), ('4_temperatures', (320.0, 280.0, 300.0, 340.0))):
+        isos = []
+        for T in Ts:
+            K = 1e-5 * numpy.exp(dH / (R * T))
+            up = numpy.geomspace(1e-4, 10.0, 120)
+            pp = numpy.concatenate((up, up[::-1][1:]))
+            ll = 5.0 * K * pp / (1 + K * pp)
+            isos.append(pygaps.PointIsotherm(pressure=pp, loading=ll, branch=[0] * 120 + [1] * 119, material='pgv_c19', adsorbate='nitrogen', temperature=T,
+                                             pressure_mode='absolute', pressure_unit='bar', loading_basis='molar', loading_unit='mmol', material_basis='mass',
+                                             material_unit='g', temperature_unit='K'))
+        for br in ('ads', 'des'):
+            try:
+                res = pgc.isosteric_enthalpy(isos, branch=br, loading_points=[0.5, 1.0, 2.0, 3.0])
+                got = numpy.asarray(res['isosteric_enthalpy'], dtype=float)
+                ok = got.shape == (4,) and bool(numpy.allclose(got, dH / 1000, rtol=5e-3))
+                detail = '' if ok else f"enthalpy {got} kJ/mol, generating value {dH / 1000}"
+            except Exception as exc:
+                ok, detail = False, f"{type(exc).__name__}: {exc}"[:160]
+            yield {'name': f"point_isotherms|{label}|branch={br}", 'ok': ok, 'detail': detail}
+
+
+@replayer('c19.points')
+def _points(spec, model):
+    for r in point_isotherm_cases():
+        if r['name'] == spec['name']:
+            return {'confirmed': not r['ok'], 'observed': r['detail'], 'expected': 'the generating enthalpy at every loading, on either branch'}
+    return {'confirmed': False, 'error': 'case not found'}
